@@ -126,6 +126,17 @@ template <class C> void mul_model() {
             for (auto b : g) { ab.push_back(to_u<C>(gil::channel_multiply(from_u<C>(a), from_u<C>(b)))); ba.push_back(to_u<C>(gil::channel_multiply(from_u<C>(b), from_u<C>(a)))); }
             J("MulW").raw("m", desc<C>()).raw("a", vt::words2(a)).raw("bs", words_list(g)).raw("ab", words_list(ab)).raw("ba", words_list(ba)).emit();
         }
+    } else if constexpr (M<C>::bits > 16) {
+        // wide integral models (17..32 bits): structured + seeded operands, both argument orders
+        auto full = wide_sample<C>(g_args->thorough() ? 64 : 16);
+        std::vector<uint64_t> B, Aset; uint64_t r = range_u<C>();
+        for (size_t i = 0; i < full.size(); ++i) if (full[i] <= 3 || full[i] + 3 >= r || i % 7 == 0) B.push_back(full[i]);
+        for (size_t i = 0; i < full.size(); ++i) if (full[i] <= 2 || full[i] + 2 >= r || i % 5 == 0) Aset.push_back(full[i]);
+        for (auto a : Aset) {
+            std::vector<uint64_t> ab, ba;
+            for (auto b : B) { ab.push_back(to_u<C>(gil::channel_multiply(from_u<C>(a), from_u<C>(b)))); ba.push_back(to_u<C>(gil::channel_multiply(from_u<C>(b), from_u<C>(a)))); }
+            J("MulW").raw("m", desc<C>()).raw("a", vt::words2(a)).raw("bs", words_list(B)).raw("ab", words_list(ab)).raw("ba", words_list(ba)).emit();
+        }
     } else if constexpr (M<C>::bits <= 8) {
         uint32_t r = (uint32_t)range_u<C>();
         std::vector<uint32_t> bs(r + 1); for (uint32_t b = 0; b <= r; ++b) bs[b] = b;
@@ -190,6 +201,7 @@ using Narrow16 = mp::mp_list<uint16_t, int16_t, gil::packed_channel_value<9>, gi
                              gil::packed_channel_value<13>, gil::packed_channel_value<14>, gil::packed_channel_value<15>, gil::packed_channel_value<16>>;
 using Wide = mp::mp_list<uint32_t, int32_t, gil::float32_t>;
 using AllNarrow = mp::mp_append<Narrow8, Narrow16>;
+using WidePacked = mp::mp_list<gil::packed_channel_value<20>, gil::packed_channel_value<24>, gil::packed_channel_value<32>>;
 using All = mp::mp_append<AllNarrow, Wide>;
 
 template <class L1, class L2, class F> void for_pairs(F f) {
@@ -229,7 +241,7 @@ int main(int argc, char** argv) {
         if (mine()) conv_from_ref<gil::packed_channel_reference<uint32_t, 7, 10, true>, uint8_t>("packed_channel_reference<u32,7,10>");
         if (mine()) conv_from_ref<gil::packed_channel_reference<uint8_t, 2, 3, true>, gil::packed_channel_value<7>>("packed_channel_reference<u8,2,3>");
     } else if (what == "mul") {
-        mp::mp_for_each<mp::mp_transform<mp::mp_identity, All>>([&](auto m) {
+        mp::mp_for_each<mp::mp_transform<mp::mp_identity, mp::mp_append<All, WidePacked>>>([&](auto m) {
             using C = typename decltype(m)::type;
             if (mine()) mul_model<C>();
             if (mine()) inv_model<C>();
